@@ -100,6 +100,8 @@ def run(ck: Checker, prog: Program, tier: str):
     # "ends with accept masks equal to that selection": assigning a mask stores that mask
     from . import statscommon as _S
     ck.guard(_S.check_mask_properties, ck, prog, "C13.R3")
+    from .common import check_identity_comparisons as _cic
+    ck.guard(_cic, ck, prog, "C13.R1", "C13")
 
 
 # --------------------------------------------------------------------------- R3
